@@ -396,6 +396,32 @@ fn recover_forked(cfg: &Cfg, img: &FsImage, universe: u64, model: &Model) -> (u8
     }
 }
 
+/// The server's start-up decision (main()'s recover-or-fresh lines, strict, no fresh start after a failed recovery) on
+/// a damaged directory: 0 = started with exactly the model, 1 = started with something else, 2 = refused, 3 = panicked.
+fn server_start_on_image(cfg: &Cfg, img: &FsImage, universe: u64, model: &Model) -> (u8, String) {
+    let dir = fresh_dir("c13s", 0);
+    img.dump(&dir);
+    let root = simlibc::register_root(&dir, Some(img), true);
+    let r = std::panic::catch_unwind(std::panic::AssertUnwindSafe(|| {
+        crate::server::vharness::start_engine_like_main(cfg.dim, cfg.metric, cfg.capacity, cfg.fsync.to_engine(), cfg.snap_interval, cfg.max_wal, cfg.hot_soft.max(1), cfg.hot_hard.max(1), cfg.cache_cap.max(1), &dir)
+    }));
+    let out = match r {
+        Ok(Ok(e)) => {
+            let c = census(e.cold_tier(), universe);
+            drop(e);
+            match census_matches(&c, model) {
+                Ok(()) => (0u8, String::new()),
+                Err(m) => (1u8, m),
+            }
+        }
+        Ok(Err(e)) => (2u8, format!("{:#}", e)),
+        Err(_) => (3u8, String::new()),
+    };
+    let _ = simlibc::unregister_root(root);
+    remove_dir(&dir);
+    out
+}
+
 pub struct Hit {
     pub damage: Damage,
     pub facts: BTreeMap<String, String>,
@@ -479,6 +505,38 @@ pub fn explore(plan: &Plan, sum: &mut Summary, only: Option<&Damage>) -> Vec<Hit
             h = (h ^ b as u64).wrapping_mul(0x100000001b3);
         }
         sum.distinct_hash(h ^ crate::crash::image_digest(&img));
+        // server rows: a removed file is also judged through the server's own start-up decision (it starts an empty
+        // database when it finds no MANIFEST, and goes through TieredEngine::recover otherwise)
+        if matches!(&d, Damage::Delete { .. }) {
+            if let Some(simg) = apply(&img, &d) {
+                reset_env(plan.env_seed ^ 0xD14);
+                let (cfg, uni, m2) = (plan.cfg.clone(), plan.universe, model.clone());
+                let (scode, smsg) = on_fresh_thread(move || server_start_on_image(&cfg, &simg, uni, &m2)).unwrap_or((3, String::new()));
+                sum.evaluations += 1;
+                sum.probe("server_startup_on_directory_with_removed_file", 1);
+                match scode {
+                    0 => sum.count("server_outcome_recovered_exact", 1),
+                    2 => sum.count("server_outcome_refused", 1),
+                    3 => sum.count("server_outcome_refused_by_panic", 1),
+                    _ => {
+                        sum.count("server_outcome_silent_damage", 1);
+                        let dimg2 = apply(&img, &d).unwrap();
+                        let mech = if role_of(&name) == Role::Man { "empty_database_started_because_manifest_is_absent".to_string() } else { mechanism(&img, &dimg2, &name, listed) };
+                        let mut facts = damage_facts(&d, newest, &mech);
+                        facts.insert("entry".into(), "server_startup".into());
+                        if mech.ends_with("other_snapshot_used") {
+                            let covered = log_still_covers_older_snapshot(&dimg2, &name, &model);
+                            facts.insert("log_still_covers_older_snapshot".into(), match covered {
+                                Some(true) => "yes",
+                                Some(false) => "no",
+                                None => "undetermined",
+                            }.into());
+                        }
+                        hits.push(Hit { damage: d.clone(), facts, message: format!("the server's start-up decision accepted a damaged directory ({:?} on {}; {}) and serves a different collection: {}", d, simlibc::mask_name(&name), mech, smsg) });
+                    }
+                }
+            }
+        }
         match code {
             0 => sum.count("outcome_recovered_exact", 1),
             2 => sum.count("outcome_refused", 1),
